@@ -14,6 +14,7 @@ import (
 	"fmt"
 	"os"
 	"runtime"
+	"runtime/pprof"
 	"sort"
 	"sync"
 
@@ -72,6 +73,21 @@ func buildFork(cs caseSpec, thorough bool) *Scenario {
 	sc := g.GenFork(cs.NewState, p)
 	sc.Warm = r.Bool()
 	sc.Restart = r.Chance(1, 3)
+	// restarts of node A: a quarter of the positions (before each RevertHead, before the first
+	// Store of a fork, before the comparisons), killed or shut down gracefully
+	if r.Chance(2, 3) {
+		n := 0
+		for i := range p.Rounds {
+			n += p.Rounds[i] + 3
+		}
+		for i := 0; i < n; i++ {
+			m := 0
+			if r.Chance(1, 4) {
+				m = 1 + r.Intn(3)/2
+			}
+			sc.RestartPlan = append(sc.RestartPlan, m)
+		}
+	}
 	return sc
 }
 
@@ -276,6 +292,7 @@ func buildCase(cs caseSpec, thorough bool) *Scenario {
 		for _, d := range directedScenarios {
 			if d.name == cs.Name {
 				sc = d.mk(cs.NewState)
+				sc.RestartMode = cs.Case % 3 // variant: no restart / killed / graceful before the first revert
 			}
 		}
 	case "enum":
@@ -284,8 +301,19 @@ func buildCase(cs caseSpec, thorough bool) *Scenario {
 			nacts = 4
 		}
 		sc, _ = enumScenario(cs.Case, nacts)
+		if sc != nil {
+			// half of the cases restart A before the first revert (mostly killed: a snapshot is 8 MB
+			// that the memory DB copies for every legacy iterator)
+			sc.RestartMode = []int{0, 1, 1, 0, 1, 2}[(cs.Case/2)%6]
+			sc.LightModel = cs.Case%4 != 0
+			sc.SmallUniverse = true
+		}
 	case "window":
 		sc = windowScenario(cs.NewState)
+		sc.RestartMode = 1
+		if cs.NewState {
+			sc.RestartMode = 2
+		}
 	}
 	if sc == nil {
 		return nil
@@ -427,6 +455,41 @@ func shrink(sc *Scenario, sig string, opt lib.GenOptions, budget int) *Scenario 
 				continue
 			}
 		}
+		if len(best.RestartPlan) > 0 || best.RestartMode > 0 {
+			c := cloneScenario(best)
+			c.RestartPlan, c.RestartMode = nil, 0
+			if try(c) {
+				progress = true
+				continue
+			}
+			// keep one restart only
+			done := false
+			for i, m := range best.RestartPlan {
+				if m == 0 {
+					continue
+				}
+				nz := 0
+				for _, x := range best.RestartPlan {
+					if x != 0 {
+						nz++
+					}
+				}
+				if nz <= 1 {
+					break
+				}
+				c := cloneScenario(best)
+				c.RestartPlan = make([]int, len(best.RestartPlan))
+				c.RestartPlan[i] = m
+				if try(c) {
+					done = true
+					break
+				}
+			}
+			if done {
+				progress = true
+				continue
+			}
+		}
 		if best.Warm || best.Restart {
 			c := cloneScenario(best)
 			c.Warm, c.Restart = false, false
@@ -479,7 +542,8 @@ func scenarioText(sc *Scenario) map[string]any {
 	if len(main) > 24 {
 		main = append([]string{fmt.Sprintf("... %d earlier blocks ...", len(main)-24)}, main[len(main)-24:]...)
 	}
-	return map[string]any{"main_chain": main, "rounds": rounds, "event_queries_before_revert": sc.Warm, "restart_compared": sc.Restart}
+	return map[string]any{"main_chain": main, "rounds": rounds, "event_queries_before_revert": sc.Warm, "restart_compared": sc.Restart,
+		"restart_plan_of_A": sc.RestartPlan, "restart_mode_of_A": sc.RestartMode}
 }
 
 // ---------------------------------------------------------------------------------------------
@@ -534,6 +598,11 @@ func (p probes) cfgLine(newState bool) string {
 }
 
 func main() {
+	if pf := os.Getenv("C04_PROF"); pf != "" { // developer aid: CPU profile
+		if fh, err := os.Create(pf); err == nil {
+			_ = pprof.StartCPUProfile(fh)
+		}
+	}
 	f := lib.ParseFlags()
 	res := lib.NewResult("a case = one scenario on one state backend: node A stores a chain, then 1-2 rounds of (revert k blocks, follow a fork); " +
 		"after every round A is compared with a fresh node B that stored only the resulting chain (decoded database + full Reader API + restarted copies) " +
@@ -563,11 +632,16 @@ func main() {
 		cases = []caseSpec{doc.Replay.Replay}
 	} else {
 		for _, ns := range []bool{false, true} {
-			cases = append(cases, caseSpec{Kind: "window", NewState: ns, Seed: f.Seed})
+			// quick: one backend per run (by seed parity), thorough: both
+			if f.Thorough() || ns == (f.Seed%2 == 0) {
+				cases = append(cases, caseSpec{Kind: "window", NewState: ns, Seed: f.Seed})
+			}
 		}
 		for _, d := range directedScenarios {
 			for _, ns := range []bool{false, true} {
-				cases = append(cases, caseSpec{Kind: "directed", NewState: ns, Seed: f.Seed, Name: d.name})
+				for variant := 0; variant < 3; variant++ {
+					cases = append(cases, caseSpec{Kind: "directed", NewState: ns, Seed: f.Seed, Name: d.name, Case: variant})
+				}
 			}
 		}
 		for i := 0; i < enumCount(f.Scale(3, 4)); i++ {
@@ -575,7 +649,7 @@ func main() {
 				cases = append(cases, caseSpec{Kind: "enum", NewState: ns, Seed: f.Seed, Case: i})
 			}
 		}
-		n := f.Scale(160, 3000)
+		n := f.Scale(128, 2500)
 		for i := 0; i < n; i++ {
 			cases = append(cases, caseSpec{Kind: "fork", NewState: i%2 == 0, Seed: f.Seed, Case: i})
 		}
@@ -704,5 +778,6 @@ func main() {
 		}(sig, job)
 	}
 	wg2.Wait()
+	pprof.StopCPUProfile()
 	lib.Finish(f, res)
 }
